@@ -89,7 +89,7 @@ def enum(pkg):
 def run_symgo(hdir, cfg, tcfg, out):
     cmd = [SYMGO, "run", "-repo", REPO, "-pkgs", ",".join(cfg["pkgs"]), "-harness", hdir,
            "-units", tcfg.get("units", cfg.get("units", ".*")), "-j", str(tcfg.get("j", 16)), "-out", out]
-    for k in ("unwind", "steps", "maxpaths", "timeout", "qtimeout", "fbtimeout", "maxdepth", "rlimit", "fallback", "solver"):
+    for k in ("unwind", "steps", "maxpaths", "timeout", "qtimeout", "fbtimeout", "maxdepth", "rlimit", "fallback", "solver", "params"):
         if k in tcfg:
             cmd += ["-" + k, str(tcfg[k])]
     r = subprocess.run(cmd, capture_output=True, text=True)
@@ -169,9 +169,12 @@ func TestVerifReplay(t *testing.T) {
 
 def replay(pid, unit, vio, hdir, rels, idx, work):
     """Native replay of one counterexample. Returns (confirmed, detail, path)."""
-    rdir = os.path.join(VERIF, "replays", pid, "%s-%d" % (unit, idx))
+    rdir = os.path.join(VERIF, "replays", pid, "%s-%d" % (unit.replace("@", "_").replace("=", ""), idx))
     shutil.rmtree(rdir, ignore_errors=True)
     os.makedirs(rdir)
+    params = ""
+    if "@" in unit:
+        unit, params = unit.split("@", 1)
     rel = unit_pkg(hdir, rels, unit)
     if rel is None:
         return False, "unit source not found", rdir
@@ -187,14 +190,14 @@ def replay(pid, unit, vio, hdir, rels, idx, work):
     json.dump({"Replace": ov}, open(os.path.join(rdir, "overlay.json"), "w"), indent=1)
     json.dump({"inputs": vio["inputs"], "choices": vio.get("choices") or []}, open(os.path.join(rdir, "inputs.json"), "w"), indent=1)
     pkgpath = "./" + rel if rel else "."
-    manual = "cd %s && VERIF_REPLAY_UNIT=%s VERIF_REPLAY_INPUTS=%s go test -vet=off -count=1 -timeout 30s -overlay %s -run '^TestVerifReplay$' -v %s" % (
-        REPO, unit, os.path.join(rdir, "inputs.json"), os.path.join(rdir, "overlay.json"), pkgpath)
+    manual = "cd %s && VERIF_REPLAY_PARAMS='%s' VERIF_REPLAY_UNIT=%s VERIF_REPLAY_INPUTS=%s go test -vet=off -count=1 -timeout 30s -overlay %s -run '^TestVerifReplay$' -v %s" % (
+        REPO, params, unit, os.path.join(rdir, "inputs.json"), os.path.join(rdir, "overlay.json"), pkgpath)
     open(os.path.join(rdir, "cmd.sh"), "w").write("#!/bin/sh\nexport PATH=/opt/veriftools/go1.26.8/bin:$PATH GOTOOLCHAIN=local GOFLAGS=-mod=mod GOPROXY=off GOSUMDB=off\n" + manual + "\n")
     open(os.path.join(rdir, "violation.json"), "w").write(json.dumps(vio, indent=1))
     cmdline = "cd %s && %s -test.run '^TestVerifReplay$' -test.timeout 20s -test.v" % (os.path.join(REPO, rel), binp)
     if vio["kind"] == "alloc":
         cmdline = "ulimit -v 3000000; " + cmdline
-    env = dict(GOENV, VERIF_REPLAY_UNIT=unit, VERIF_REPLAY_INPUTS=os.path.join(rdir, "inputs.json"))
+    env = dict(GOENV, VERIF_REPLAY_UNIT=unit, VERIF_REPLAY_PARAMS=params, VERIF_REPLAY_INPUTS=os.path.join(rdir, "inputs.json"))
     r = subprocess.run(cmdline, shell=True, capture_output=True, text=True, env=env)
     out = r.stdout + r.stderr
     open(os.path.join(rdir, "output.txt"), "w").write(out)
@@ -272,6 +275,7 @@ def main():
     discrepancies = []
     allow_partial = set(tcfg.get("partial_ok", []))
     not_encoded = []
+    seen = {}
     for u in units:
         name = u["unit"]
         if u.get("internal_error"):
@@ -291,20 +295,27 @@ def main():
             flt = cfg.get("violation_filter")
             if flt and not flt(name, v):
                 continue
-            key = "%s|%s" % (name, v["key"])
+            base = name.split("@")[0]
+            key = "%s|%s" % (base, v["key"])
             v["unit"] = name
-            if key in known_keys and key in known_hits:
-                continue  # same known site again
+            st = seen.setdefault(key, {"confirmed": False, "tries": 0, "fails": []})
+            if st["confirmed"] or st["tries"] >= 3:
+                continue
+            st["tries"] += 1
             ok, detail, rdir = replay(pid, name, v, hdir, rels, i, work)
             replays += 1
             v["replay"] = {"confirmed": ok, "detail": detail, "path": rdir}
             if not ok:
-                discrepancies.append("%s: %s %s at %s: %s" % (name, v["kind"], v["msg"], v["site"], detail))
+                st["fails"].append("%s: %s %s at %s: %s" % (name, v["kind"], v["msg"], v["site"], detail))
                 continue
+            st["confirmed"] = True
             if key in known_keys:
                 known_hits[key] = v
             else:
                 new_violations.append((key, v))
+    for key, st in seen.items():
+        if not st["confirmed"]:
+            discrepancies.append(st["fails"][0])
     for key, v in sorted(known_hits.items()):
         print("KNOWN-FINDING: property=%s %s" % (pid, known_keys[key].get("what", key)))
     for key, v in new_violations:
